@@ -43,6 +43,8 @@ AllPicks ==
         [] c = "equiv" -> x[5] [] c = "diff" -> "-" [] c = "not" -> x[6] [] c = "true" -> x[7] [] c = "false" -> x[8]] :
    x \in AndSp \X OrSp \X XorSp \X ImpSp \X EqvSp \X NotSp \X TrueSp \X FalseSp}
 Leaves == {<<"var", "a">>, <<"var", "b">>, <<"const", TRUE>>}
+Pick1 == CHOOSE p \in AllPicks : p["and"] = "/\\" /\ p["or"] = "\\/" /\ p["not"] = "~" /\ p["implies"] = "=>" /\ p["equiv"] = "<=>" /\ p["xor"] = "#" /\ p["true"] = "TRUE" /\ p["false"] = "FALSE"
+Pick2 == CHOOSE p \in AllPicks : p["and"] = "&&" /\ p["or"] = "||" /\ p["not"] = "!" /\ p["implies"] = "->" /\ p["equiv"] = "<->" /\ p["xor"] = "^" /\ p["true"] = "True" /\ p["false"] = "False"
 Init == t \in Leaves
 Next == \/ t' = <<"not", t>>
         \/ \E c \in Conns, x \in Leaves : t' = <<"bin", c, t, x>> \/ t' = <<"bin", c, x, t>>
